@@ -344,7 +344,7 @@ def unicode_families(run, exe, acc, rnd, per_eco=4, size=5, name="uni"):
         cand = ([t for t in cand if conv.match(t)] + [t for t in cand if not conv.match(t)])[:per_eco * 2]
         for k, t in enumerate(cand):
             pos = rnd.choice([m.start() for m in re.finditer(r"[A-Za-z]", t)])
-            g = UNI_GROUPS[k % len(UNI_GROUPS)] if k >= 2 else UNI_GROUPS[k]     # the first two groups always
+            g = UNI_GROUPS[([0, 1, 0, 1] + list(range(2, len(UNI_GROUPS))))[k % (len(UNI_GROUPS) + 2)]]     # the first two groups always, on two texts each
             fams[e].append((t, [t[:pos] + u + t[pos + 1:] for u in g]))
         cands[e] = [x for _, f in fams[e] for x in f]
     ok = accept_filter(run, exe, cands, name=name)
